@@ -158,6 +158,24 @@ Theorem c05_inherit_after_chain : forall pol ce steps s src id par rt body o s',
 Proof. exact inherit_after_chain. Qed.
 Print Assumptions c05_inherit_after_chain.
 
+(* after an unwrapping step: whatever the callback returned — a Future / Task living on any executor included — the step's
+   core holds the executor the step was attached with (its own or the inherited one), never the returned handle's *)
+Theorem c05_step_keeps_its_executor : forall pol ce s q id par a rt body oq s0 o s',
+  drun pol ce s q = Some (oq, s0) -> drun pol ce s (PThen q id par a rt body) = Some (o, s') ->
+  o_exec o = exec_of a oq.
+Proof. exact step_executor. Qed.
+Print Assumptions c05_step_keeps_its_executor.
+
+(* after a refusal: the refused step's core keeps the refusing executor; if that executor keeps refusing (Stop is final), the
+   next Then(f) inherits it and is refused too — and the same hypothesis holds again for the step after it *)
+Theorem c05_inherit_after_refusal : forall pol ce s q id par a rt body oq s0 o1 s1,
+  drun pol ce s q = Some (oq, s0) -> drun pol ce s (PThen q id par a rt body) = Some (o1, s1) ->
+  (forall m, d_cnt s0 (exec_of a oq) <= m -> pol (exec_of a oq) m = false) ->
+  o_exec o1 = exec_of a oq /\ accepts pol s1 (exec_of AInherit o1) = false /\
+  (forall m, d_cnt s1 (exec_of AInherit o1) <= m -> pol (exec_of AInherit o1) m = false).
+Proof. exact inherit_after_refusal. Qed.
+Print Assumptions c05_inherit_after_refusal.
+
 (* read off the program text: [named p] is the executor given to the last Then(e,f) / Run(e,f) / MakeContractOn(e) /
    AsyncContract(e,f) / Schedule(e,f) on the spine of p (MakeInline() if there is none) *)
 Theorem c05_inherit_named : forall pol s p o s', drun pol no_on s p = Some (o, s') -> o_exec o = named p.
